@@ -1,7 +1,7 @@
 (* C05 — Ring buffer slots: no overwrite before consumption, no unordered access. *)
 From Coq Require Import Arith Lia.
 From DC Require Import Disruptor.Pipeline.
-From DC Require Disruptor.HB Disruptor.MultiPub Disruptor.MultiPubHB Disruptor.Handlers Disruptor.MultiPipe Disruptor.MultiPipeReplay Disruptor.PipeReplay.
+From DC Require Disruptor.HB Disruptor.MultiPub Disruptor.MultiPubHB Disruptor.Handlers Disruptor.MultiPipe Disruptor.MultiPipeReplay Disruptor.PipeReplay Disruptor.Slots Disruptor.SlotsProofs.
 From Coq Require Import ZArith List.
 Import ListNotations.
 
@@ -119,3 +119,16 @@ Print Assumptions C05_producer_fills_race_free.
 Print Assumptions C05_no_overwrite_percursor.
 Print Assumptions C05_full_ring_ahead_blocks.
 Print Assumptions C05_invariant.
+
+(* slots are shared exactly between sequences that are congruent modulo the ring size, and every unchecked slot access is in bounds
+   (Disruptor/Slots.v mirrors const_array_ring_buffer.rs); "the event previously stored there" is the event of sequence q - N *)
+Theorem C05_slots_are_shared_exactly_by_congruent_sequences : forall k r s s', SlotsProofs.Inv k r ->
+  (Slots.index r s = Slots.index r s' <-> (s mod 2 ^ k = s' mod 2 ^ k)%N).
+Proof. exact SlotsProofs.same_slot_iff. Qed.
+
+Theorem C05_slot_access_is_in_bounds : forall k r s, SlotsProofs.Inv k r ->
+  N.to_nat (Slots.index r s) < length (Slots.data r).
+Proof. exact SlotsProofs.index_in_bounds. Qed.
+
+Print Assumptions C05_slots_are_shared_exactly_by_congruent_sequences.
+Print Assumptions C05_slot_access_is_in_bounds.
